@@ -438,7 +438,13 @@ def rule_regex_pattern(ctx):
                 regex.attrs.update({"match": match, "search": other, "fullmatch": other, "findall": other})
                 return regex
 
-            interp = Interp(model, ch, externals={"re.compile": compile_hook, "fnmatch.translate": translate},
+            def shell_match(interp_, args, kwargs):
+                # fnmatch.fnmatch folds case only where os.path.normcase does (not on POSIX); fnmatchcase never does
+                compiled.setdefault("calls", []).append(("fnmatch",) + tuple(args))
+                return matches
+
+            interp = Interp(model, ch, externals={"re.compile": compile_hook, "fnmatch.translate": translate,
+                                                  "fnmatch.fnmatch": shell_match, "fnmatch.fnmatchcase": shell_match},
                             stubs={"cutplace.ranges.Range": stub(lambda i, a, k: Obj(model.cls("cutplace.ranges.Range"), {}))})
             world = World(model, interp, ch)
             rule = "a*b"
